@@ -4,7 +4,7 @@ from harness.pcommon import pack_unit
 
 ID = "C19"
 RULE = ("packing requests with one or more oversize items at EVERY position of structured random item lists (n <= 8) x 5 packers x formats "
-        "list/array/dict/names+valueof x every output type; CBLDM calls with exactly one invalid argument (numbins in {1,3,4}, a negative item at "
+        "list/array/dict/names+valueof x every output type, including bin size 0 or negative with an item above it; CBLDM calls with exactly one invalid argument (numbins in {1,3,4}, a negative item at "
         "every position, time_limit in {0,-1}, partition_difference in {0,-3,1.5,2.0}) and otherwise valid inputs, plus valid control calls; "
         "numitems on the sums-only manager. Non-trivial: the list has >= 2 items. Distinct by (port, params).")
 EXPLANATION = ("exceptions raised by prtpy.pack / prtpy.partition compared with the model's Err value (theorems C19_*: Err ValueError iff an oversize item exists, "
@@ -26,6 +26,15 @@ def units(rng, tier):
             a = rng.choice(["ff", "ffd", "bf", "bfd", "bc"])
             u = pack_unit(a, C, v, rng, fmt=rng.choice(gen.FORMATS), out=rng.choice(OUTS), cmp="eq", family="oversize")
             us.append(u)
+    # degenerate bin sizes: binsize 0 (only zero-valued items fit) or negative, with at least one item above it
+    for _ in range(40 if tier == "quick" else 400):
+        C = rng.choice([0, 0, 0, -1, -5])
+        v = [0] * rng.randint(0, 3) + [rng.randint(1, 9) for _ in range(rng.randint(1, 3))]
+        if C < 0 and rng.random() < 0.3:
+            v = [0] * rng.randint(1, 3)          # a zero-valued item exceeds a negative bin size too
+        rng.shuffle(v)
+        a = rng.choice(["ff", "ffd", "bf", "bfd", "bc", "bc"])
+        us.append(pack_unit(a, C, v, rng, fmt=rng.choice(gen.FORMATS), out=rng.choice(OUTS), cmp="eq", family="oversize/degenerate-binsize"))
     # integers beyond 2^53 that exceed the bin size by one unit: the refusal must rest on exact integer comparison
     for _ in range(40 if tier == "quick" else 400):
         C = rng.choice([2 ** 53, 10 ** 16, 2 ** 60, 10 ** 18 + 1, 2 ** 53 + 2])
